@@ -292,7 +292,7 @@ func (env *Env) ident(name string) Val {
 			if env.inOld {
 				// entry values of parameters
 				for i, p := range fr.fn.Params {
-					if p.Name() == name && i < len(fr.params) {
+					if (p.Name() == name || e.vname(fr.fn, p.Name()) == name) && i < len(fr.params) {
 						return fr.params[i]
 					}
 				}
@@ -308,7 +308,7 @@ func (env *Env) ident(name string) Val {
 			}
 			if env.inOld || len(fr.names) == 0 {
 				for i, p := range fr.fn.Params {
-					if p.Name() == name && i < len(fr.params) {
+					if (p.Name() == name || e.vname(fr.fn, p.Name()) == name) && i < len(fr.params) {
 						return fr.params[i]
 					}
 				}
